@@ -6,7 +6,8 @@ package main
 //                        and the shape of what follows the header loop (Uvarint of buf[1:], one make of
 //                        remlen bytes appended, reads until len(buf))
 //   service/sendrecv.go  peekMessageSize: `cnt int = S`, `if cnt > N`, total = int(remlen) + 1 + m
-//                        peekMessage: mtype.New() failure returns before Decode
+//                        peekMessage: mtype.New() failure returns before Decode; a decoded PUBLISH with
+//                        QoS != 0 and PacketID() == 0 is an error return
 //   service/server.go    handleConnection has a deferred recover()
 //   service/process.go   processor has a deferred recover(); an error of processIncoming other than
 //                        errDisconnect does not end the loop
@@ -169,6 +170,30 @@ func factsFraming(repo string, o *out) {
 	if !newPos.IsValid() || !decPos.IsValid() || newPos > decPos || !retAfterNew {
 		die("peekMessage: `msg, err = mtype.New(); if err != nil { return }; n, err = msg.Decode(b)` not found")
 	}
+
+	// if pm, ok := msg.(*message.PublishMessage); ok && pm.QoS() != message.QosAtMostOnce && pm.PacketID() == 0 { return … }
+	idCheck := false
+	ast.Inspect(pm.Body, func(n ast.Node) bool {
+		ifs, ok := n.(*ast.IfStmt)
+		if !ok || ifs.Init == nil || ifs.Pos() < decPos {
+			return true
+		}
+		as, ok := ifs.Init.(*ast.AssignStmt)
+		if !ok || len(as.Lhs) != 2 || len(as.Rhs) != 1 {
+			return true
+		}
+		ta, ok := as.Rhs[0].(*ast.TypeAssertExpr)
+		if !ok || exprString(ta.X) != "msg" || exprString(ta.Type) != "*message.PublishMessage" {
+			return true
+		}
+		v := exprString(as.Lhs[0])
+		want := "((" + exprString(as.Lhs[1]) + "&&(" + v + ".QoS()!=message.QosAtMostOnce))&&(" + v + ".PacketID()==0))"
+		if exprString(ifs.Cond) == want && containsReturn(ifs.Body) {
+			idCheck = true
+		}
+		return true
+	})
+	o.def("framingRejectsPublishIdZero", "Bool", strconv.FormatBool(idCheck))
 
 	fsrv := parse(repo, "service/server.go")
 	o.def("framingAcceptRecovers", "Bool", strconv.FormatBool(hasDeferredRecover(findFunc(fsrv, "Server", "handleConnection"))))
